@@ -355,6 +355,10 @@ def debug(w):
     val = Struct('registers::debug::Dr7Value', [BV(64, [lit('d', i) if (valid >> i) & 1 else 0 for i in range(64)])])
     w.flags_write(DB + 'Dr7::write', 'dr7', None, 'Dr7::write', allb=valid, arg=val)
     w.flags_update(DB + 'Dr7::update', 'dr7', None, 'Dr7::update', allb=valid)
+    # the typed view of DR7 is only as good as its field accessors: each condition / size getter decodes the field its setter encodes
+    # (per breakpoint, independent of the other bits) - C19's DR7 codec rules, run here under this property's name
+    from .c19 import dr7value
+    w.chk.guard('wrapper', 'Dr7Value fields', lambda: dr7value(w.chk, 'dr7-fields'))
 
 
 # ------------------------------------------------------------------------------------------------ MSRs
